@@ -39,6 +39,8 @@ type c5Gen struct {
 	// the first type and renders nothing (so a previous file of the generator is kept there, and removed in Quiet packages)
 	Quiet  []string `json:"quiet,omitempty"`
 	Ignore []string `json:"ignore,omitempty"`
+	// Alias: the generator also implements AliasGenerator; alias types get the same state-dependent rendering
+	Alias bool `json:"alias,omitempty"`
 }
 
 type c5Case struct {
@@ -49,6 +51,8 @@ type c5Case struct {
 	// Sib: a second module (replace directive) with its own go version; its package can be generated in the same run, and what
 	// is generated for a package must not depend on which module's package came first
 	Sib *modspec.Mod `json:"sib,omitempty"`
+	// DupGen: the first generator is handed to Execute twice (two generators with the same Name())
+	DupGen bool `json:"dupgen,omitempty"`
 }
 
 var c5ClashRefs = []string{
@@ -78,6 +82,7 @@ func genC05(t *rapid.T) c5Case {
 			{"example.com/x/codec.T", "example.com/y/codec.T"}, {"github.com/foo/bar.T", "github.com/other/bar.T"}, {"example.com/a/util.X", "example.com/b/util.X"},
 			{"example.com/y/codec.T", "example.com/x/codec.T"},
 		}).Draw(t, "rotpair")
+		g.Alias = rapid.Bool().Draw(t, "alias")
 		for pi := range c.Mod.Pkgs {
 			switch rapid.IntRange(0, 7).Draw(t, "pkgbehaviour") {
 			case 0:
@@ -98,6 +103,7 @@ func genC05(t *rapid.T) c5Case {
 			c.Mod.Pkgs[pi].Other = append(c.Mod.Pkgs[pi].Other, modspec.File{Name: "zz_generated.old.go", Data: fmt.Sprintf("package %s\n\nvar _stale_old_%d = 0\n", c.Mod.Pkgs[pi].Name, pi)})
 		}
 	}
+	c.DupGen = rapid.IntRange(0, 5).Draw(t, "dupgen") == 0
 	switch rapid.IntRange(0, 4).Draw(t, "real") {
 	case 0:
 		c.Real = []string{"runtimedoc"}
@@ -197,6 +203,11 @@ func (g c5Gen) script(c *c5Case) *script.Script {
 		}
 	}
 	s.Default = script.Action{Render: pieces}
+	if g.Alias {
+		s.Alias = true
+		a := s.Default
+		s.OnAlias = &a
+	}
 	return s
 }
 
@@ -250,6 +261,9 @@ func oracleC05(c c5Case) error {
 	}
 	for _, r := range c.Real {
 		globals["gengo:"+r] = []string{""}
+	}
+	if c.DupGen && len(scripts) > 0 {
+		scripts = append(scripts, scripts[0])
 	}
 	type result struct {
 		sel  c5Sel
@@ -341,6 +355,14 @@ func c5Features(c c5Case) []string {
 	}
 	if multi {
 		fs["multi-package-selection"] = true
+	}
+	if c.DupGen {
+		fs["same-generator-twice"] = true
+	}
+	for _, g := range c.Gens {
+		if g.Alias {
+			fs["alias-generator"] = true
+		}
 	}
 	if c.Sib != nil {
 		fs["second-module"] = true
